@@ -359,9 +359,16 @@ func oracle(r *vx.Run, h History, nm names, reads []read) bool {
 			case rd.Kind == "tx-pit" && !datesMonotone(ls):
 				class = "assumption:log-dates-not-monotone"
 			case rd.Kind == "tx-pit":
-				// the PIT query masks reverted_at in an unnamed CASE column which the store's model does not scan
-				if now := replayTx(ls, rd.TxID, nil); now != nil && st != nil && now.reverted && !st.reverted {
-					class = "tx-pit-reverted-flag-not-masked"
+				// reverted_at keeps only the date of the LAST revert: a transaction reverted twice (the engine refuses
+				// that, property C10) is outside what "reverted as of a date" can answer
+				n := 0
+				for _, e := range ls {
+					if e.Kind == "revert" && e.Reverted == rd.TxID {
+						n++
+					}
+				}
+				if n > 1 {
+					class = "assumption:transaction-reverted-twice"
 				}
 			}
 		case "tx-volumes", "tx-effective-volumes":
